@@ -108,7 +108,7 @@ impl GenericSocketBackend {
 //@|        ensures
 //@|            // C10: nobody to send to -> the message comes back intact and nothing is written
 //@|            first_live(old(self).round_robin@, old(self).peers@) == old(self).round_robin@.len()
-//@|                ==> r is Err && r->Err_0 is ReturnToSender && r->Err_0->ReturnToSender_message == message->Message_0
+//@|                ==> r is Err && r->Err_0 is ReturnToSender && r->Err_0->ReturnToSender_message.fr() == message->Message_0.fr()
 //@|                    && final(self).peers@ == old(self).peers@,
 //@|            // otherwise exactly the first live peer of the rotation is written to
 //@|            first_live(old(self).round_robin@, old(self).peers@) < old(self).round_robin@.len()
@@ -366,7 +366,7 @@ impl XPubSocket {
 /// otherwise exactly the first live peer of the rotation gets the whole message (flushed) and rotates
 spec fn rr_socket_sent(b0: GenericSocketBackend, b1: GenericSocketBackend, r: ZmqResult<()>, m: ZmqMessage) -> bool {
     let k = first_live(b0.round_robin@, b0.peers@);
-    &&& k == b0.round_robin@.len() ==> r is Err && r->Err_0 is ReturnToSender && r->Err_0->ReturnToSender_message == m && b1.peers@ == b0.peers@
+    &&& k == b0.round_robin@.len() ==> r is Err && r->Err_0 is ReturnToSender && r->Err_0->ReturnToSender_message.fr() == m.fr() && b1.peers@ == b0.peers@
     &&& k < b0.round_robin@.len() ==> {
             let p = b0.round_robin@[k];
             &&& b0.peers@.contains_key(p)
